@@ -23,7 +23,8 @@ def tname(T):
 
 
 def budget(L, n):
-    return 64 * (L + 2) * (n + 2) + 4000
+    """loop budget of one encode / decode call: steps x vertices, plus the quadratic cost of the decimal-string arithmetic"""
+    return 64 * (L + 2) * (n + 2) + 8 * L * L + 4000
 
 
 def case_of(k, G, start, T, bits, fast, extra=None):
